@@ -95,9 +95,16 @@ Definition closed_in (l : list ev) : bool := existsb (fun e => match e with EClo
 
 Definition PEER : bytes := B "10.1.2.3".
 
+(* the client's address: the harness' default, or the one the case names behind its meta data (IPv6, IPv4-mapped, ...) *)
+Definition peer_of (rest : list value) : bytes :=
+  match rest with
+  | [_; VB p] => p
+  | _ => PEER
+  end.
+
 Definition run_proxy (c : value) : value :=
   match c with
-  | VL (VB head :: VL segs :: VI k :: VL upops :: VI refused :: orc :: _) =>
+  | VL (VB head :: VL segs :: VI k :: VL upops :: VI refused :: orc :: rest) =>
       match get_bytes_list segs, dec_downops upops, dec_env orc with
       | Some bs, Some dops, Some e =>
           match parse_request_headers head with
@@ -107,7 +114,7 @@ Definition run_proxy (c : value) : value :=
                   let cl := if hm_contains (B "Content-Length") h then to_longlong (hm_value (B "Content-Length") h) else -1 in
                   let body := concat bs in
                   let body' := if cl =? -1 then body else firstn (Z.to_nat (Z.max cl 0)) body in
-                  let uphead := upstream_head m (skipn 1 path) target h PEER in
+                  let uphead := upstream_head m (skipn 1 path) target h (peer_of rest) in
                   let sent := if as_bool refused then [] else uphead ++ body' in
                   (* the client side: a fresh connection on which the proxy makes its calls *)
                   let aops := down_run {| d_parsed := false; d_buf := [] |} (if as_bool refused then [DError] else dops) in
